@@ -302,10 +302,16 @@ impl Pattern {
      * to verify that there is a match.
      */
     fn alternate_match(pattern: &str, pkg: &str) -> bool {
-        for (i, _) in
-            pattern.match_indices('{').collect::<Vec<_>>().iter().rev()
-        {
-            let (first, rest) = pattern.split_at(*i);
+        /*
+         * Only the right-most opening brace is expanded here: its group
+         * cannot contain a nested group, so the first closing brace after it
+         * is its own.  The recursive Pattern::new() below then handles the
+         * remaining (outer and earlier) groups of each expansion.  Expanding
+         * any other opening brace at this level would pair it with an inner
+         * group's closing brace.
+         */
+        if let Some(i) = pattern.rfind('{') {
+            let (first, rest) = pattern.split_at(i);
             /* This shouldn't fail as new() already verified, but... */
             let Some(n) = rest.find('}') else {
                 return false;
